@@ -1,5 +1,5 @@
 (** Judges for pool histories. *)
-From OCV Require Export Base.Prelude Misc.Time Queue.PMap Queue.OWS Coroutine.Co Coroutine.CoOracle Sched.Sched Sched.Pool Sched.PoolOracle.
+From OCV Require Export Base.Prelude Misc.Time Queue.PMap Queue.OWS Coroutine.Co Coroutine.CoOracle Sched.Sched Sched.Pool Sched.PoolOracle Sched.PoolWf Sched.PoolRun.
 From Coq Require Import String.
 Open Scope string_scope.
 
@@ -35,12 +35,22 @@ Definition defect_name (d : nat) : string :=
   | _ => "other_defect"
   end%nat.
 
+(** is the history inside the premises of the single-pool theorems (Sched/PoolProofs)? *)
+Definition premise_tags (c : pcase) : list string :=
+  match pc_cfgs c with
+  | [cfg] =>
+      if wf_pool1 (pc_clock c) cfg (pc_ops c)
+      then "wf_pool1" :: (if nodiv (pw0 (pc_clock c) [cfg]) (pc_ops c) then ["nodiv"] else [])
+      else []
+  | _ => []
+  end.
+
 Definition judge_with (pick : potr -> bool) (c : pcase) : verdict :=
   let m := model_obs c in
   let x := pfinal (pw0 (pc_clock c) (pc_cfgs c)) (pc_ops c) in
   let '(t, shape) := judge_pool (pc_clock c) (pc_cfgs c) (pc_ops c) (pc_impl c) in
   {| v_corr := list_eqb pobs_eqb m (pc_impl c); v_prop := pick t && shape;
-     v_tags := map defect_name (pw_defects x) ++ pool_tags m; v_note := diff_note pobs_eqb m (pc_impl c) |}.
+     v_tags := map defect_name (pw_defects x) ++ premise_tags c ++ pool_tags m; v_note := diff_note pobs_eqb m (pc_impl c) |}.
 
 (** the oracle on the model's own run (used to search and shrink witnesses without the harness) *)
 Definition judge_self (pick : potr -> bool) (c : pcase) : verdict :=
